@@ -1,7 +1,7 @@
 """C05 — PlainDateTime arithmetic, difference and rounding (wiring, limit checks, unit hygiene)."""
 from ._std import *
 from ..rules import wiring, units
-from ..rules.common import hir_walk, node_line, OPT, unit, vname, UNIT_NAMES, fold, tri
+from ..rules.common import hir_walk, node_line, OPT, unit, vname, UNIT_NAMES, fold, tri, same_product
 
 EXPLANATION = (
     "Static wiring (R2), dominance (R11), error-kind (R7b), table (R1) and unit (R4/R5) rules on the type-checked HIR "
@@ -72,8 +72,7 @@ def check_round_slots(run, fx, rs):
         if unitname in slots or u == "Day":
             i = slots.index(unitname) if unitname in slots else -1
             want_time = H.S("temporal_rs::iso::IsoTime", tuple((n, vals[j] if j <= i else 0) for j, n in enumerate(slots)))
-            ok = got[0] == "ok" and isinstance(got[1], H.T) and len(got[1].items) == 2 and got[1].items[0] == 0 \
-                and got[1].items[1] == want_time
+            ok = got[0] == "ok" and same_product(got[1], H.T((0, want_time)))
             tri(run, rule, u, got, ok, "rounding to %s keeps the larger fields, puts the rounded value in its slot, zeroes the rest" % u,
                 "rounding 13:24:35.046057068 to %s with an identity kernel gives %s; expected (0 days, %s)" %
                 (u, show(got[1])[:140] if got[0] != "err" else got, show(want_time)[:140]), f.loc)
